@@ -110,6 +110,13 @@ func TestC11BodyOrError(t *testing.T) {
 				}
 				protocol.ReleaseRequest(req)
 				protocol.ReleaseResponse(resp)
+				// the URL helpers (Get / Post ...) read the body for the caller: the same rule
+				if bad == "" {
+					_, hb, herr := cl.Get(context.Background(), nil, "http://"+addr+"/x")
+					if herr == nil && string(hb) != full {
+						bad = fmt.Sprintf("client.Get returned nil and a body of %d of %d bytes", len(hb), len(full))
+					}
+				}
 				stop()
 				if bad != "" {
 					ev.Fail(prop, "body-or-error", map[string]interface{}{"case": name}, name+": "+bad)
